@@ -209,6 +209,18 @@ func (u *Universe) genVal(r *rng, sh *Shape, g genOpts) *Val {
 			if sh.Elem.T == 'm' || sh.Elem.T == 'e' || sh.Elem.T == 'b' {
 				n = 3 + r.intn(5)
 			}
+		case 7:
+			// element counts between the small and the large class: with 5- or 10-byte elements the packed
+			// payload crosses the 127/128 length boundary at 13..26 elements
+			n = 6 + r.intn(25)
+			if sh.Elem.T == 'm' || sh.Elem.T == 'e' {
+				n = 6 + r.intn(6)
+			}
+		case 8:
+			n = 31 + r.intn(69)
+			if sh.Elem.T == 'm' || sh.Elem.T == 'e' || sh.Elem.T == 'b' {
+				n = 2 + r.intn(4)
+			}
 		default:
 			n = 2 + r.intn(4)
 		}
